@@ -10,11 +10,10 @@ KIND = {'manage_accessed': 1, 'manage_changed': 2}
 CONFIG_NAMES = {'_cookie_name', '_cookie_max_age', '_cookie_path', '_cookie_domain', '_cookie_secure',
                 '_cookie_httponly', '_cookie_samesite', '_cookie_on_exception', '_timeout', '_reissue_time', '_dirty'}
 # class-level configuration of CookieSession (not translated: pinned literally)
-CONFIG_EXPECTED = {'_cookie_name': 'cookie_name', '_cookie_max_age': 'max_age if max_age is None else int(max_age)',
+# (_cookie_max_age, _timeout, _reissue_time, _cookie_on_exception are TRANSLATED: harness/c10/translate_factory.py)
+CONFIG_EXPECTED = {'_cookie_name': 'cookie_name',
                    '_cookie_path': 'path', '_cookie_domain': 'domain', '_cookie_secure': 'secure',
-                   '_cookie_httponly': 'httponly', '_cookie_samesite': 'samesite', '_cookie_on_exception': 'set_on_exception',
-                   '_timeout': 'timeout if timeout is None else int(timeout)',
-                   '_reissue_time': 'reissue_time if reissue_time is None else int(reissue_time)', '_dirty': 'False'}
+                   '_cookie_httponly': 'httponly', '_cookie_samesite': 'samesite', '_dirty': 'False'}
 # names of the model's methods (spelled here only to avoid writing code-point lists by hand in Coq)
 METHS = ['get', '__getitem__', 'items', 'values', 'keys', '__contains__', '__len__', '__iter__',
          'clear', 'update', 'setdefault', 'pop', 'popitem', '__setitem__', '__delitem__',
@@ -35,7 +34,7 @@ def wrapper_table(cls, problems):
             name = st.targets[0].id
             v = st.value
             if name in CONFIG_NAMES:
-                if ast.unparse(v) != CONFIG_EXPECTED.get(name):
+                if name in CONFIG_EXPECTED and ast.unparse(v) != CONFIG_EXPECTED.get(name):
                     problems.append('CookieSession.%s = %s (the model reads this option as %s)' % (
                         name, ast.unparse(v)[:60], CONFIG_EXPECTED.get(name)))
                 continue
@@ -115,41 +114,6 @@ def factory_skeleton(m, problems):
             problems.append('session.py: module-level binding of %s is %s, expected %s' % (nm, binds.get(nm), w))
 
 
-def signed_factory(m, problems):
-    """SignedCookieSessionFactory is pinned in two variants (pins_variants.json): the original one, and the one that
-    wraps the SignedSerializer in _CanonicalBase64Serializer (then that class is pinned too and `import base64`
-    checked).  -> canonical_check"""
-    import json
-    with open(os.path.join(HERE, 'pins_variants.json')) as f:
-        var = json.load(f)['pyramid/session.py']
-    fn = m.find('SignedCookieSessionFactory')
-    if fn is None:
-        problems.append('SignedCookieSessionFactory not found')
-        return False
-    h = F.shape(fn)
-    if h == var['SignedCookieSessionFactory']['orig']:
-        return False
-    if h == var['SignedCookieSessionFactory']['canonical']:
-        ok = True
-        for q in ('__init__', 'dumps', 'loads'):
-            node = m.find('_CanonicalBase64Serializer.' + q)
-            if node is None or F.shape(node) != var['_CanonicalBase64Serializer.' + q]:
-                problems.append('shape pin pyramid/session.py:_CanonicalBase64Serializer.%s changed or missing' % q)
-                ok = False
-        cls = m.find('_CanonicalBase64Serializer')
-        if cls is None or cls.bases or cls.decorator_list or [
-                b.name for b in cls.body if isinstance(b, ast.FunctionDef)] != ['__init__', 'dumps', 'loads']:
-            problems.append('_CanonicalBase64Serializer: unexpected members / bases')
-            ok = False
-        if not any(isinstance(st, ast.Import) and [a.name for a in st.names] == ['base64'] for st in m.tree.body):
-            problems.append('session.py: `import base64` missing')
-            ok = False
-        return ok
-    problems.append('shape pin pyramid/session.py:SignedCookieSessionFactory changed (%s): the hand-written model follows '
-                    'one of the two pinned variants' % h)
-    return False
-
-
 def _find_compare(fn, pred):
     hits = [n for n in ast.walk(fn) if isinstance(n, ast.Compare) and len(n.ops) == 1 and pred(n)]
     return hits
@@ -169,7 +133,6 @@ def extract(src):
             raise ValueError('CookieSession class not found')
         vals['table'] = wrapper_table(cls, problems)
         factory_skeleton(m, problems)
-        vals['canonical_check'] = signed_factory(m, problems)
         # timeout test in __init__:  now - renewed OP self._timeout
         init = m.find('BaseCookieSessionFactory.CookieSession.__init__')
         h = _find_compare(init, lambda n: ast.unparse(n.left) == 'now - renewed' and ast.unparse(n.comparators[0]) == 'self._timeout')
